@@ -43,7 +43,7 @@ CFG = {
         "Heap.C11_heap_insert_rootsplit_refines_partial",
         # … adjustTree along the STORED parent links for trees of any height: Insert that overflows no node, under the path hypothesis PathOK;
         # the frame lemma (memories agreeing on the nodes erase visits denote the same tree)
-        "Heap.erase_agree", "Heap.adjust_climb", "Heap.C11_heap_insert_nosplit_refines_partial",
+        "Heap.erase_agree", "Heap.adjust_climb", "Heap.C11_heap_insert_nosplit_refines_partial", "Heap.pathOKb_sound",
         # … condenseTree's upward loop along the stored parent links (no underflow on the path): Delete on trees of any height, under the path hypotheses
         "Heap.condense_climb", "Heap.delIn_rebuild", "Heap.C11_heap_delete_nounderflow_refines_partial",
         # T1: definitions regenerated from index/rtree/{geom,rtree}.go of the tree under test = the model's
